@@ -80,9 +80,16 @@ def extract(config='default', repo=REPO, fresh=False, out_dir=None, target=None)
     try:
         if os.path.exists(marker) and not fresh and not os.environ.get('VERIF_NO_CACHE'):
             return d, th, True
-        if os.path.isdir(d):
-            shutil.rmtree(d)
-        os.makedirs(d)
+        # readers (load_locked) hold this lock shared while they parse the fact files
+        rw = open(os.path.join(CACHE, 'facts.rw.lock'), 'w')
+        fcntl.flock(rw, fcntl.LOCK_EX)
+        try:
+            if os.path.isdir(d):
+                shutil.rmtree(d)
+            os.makedirs(d)
+        finally:
+            fcntl.flock(rw, fcntl.LOCK_UN)
+            rw.close()
         tgt = target or os.path.join(CACHE, 'target')
         for fp in glob.glob(os.path.join(tgt, 'debug', '.fingerprint', '*')):
             base = os.path.basename(fp)
@@ -123,6 +130,27 @@ def extract(config='default', repo=REPO, fresh=False, out_dir=None, target=None)
 
 class BuildFailed(Exception):
     pass
+
+
+def load_locked(loader, config='default', repo=REPO, fresh=False):
+    """extract (or reuse) and parse the fact files; safe against a concurrent check that re-extracts the same tree"""
+    import time
+    last = None
+    for attempt in range(6):
+        d, th, cached = extract(config, repo=repo, fresh=fresh and attempt == 0)
+        rw = open(os.path.join(CACHE, 'facts.rw.lock'), 'w')
+        fcntl.flock(rw, fcntl.LOCK_SH)
+        try:
+            if os.path.exists(os.path.join(d, '.complete')):
+                try:
+                    return loader(d), th, cached
+                except (FileNotFoundError, ValueError) as e:      # directory replaced under us / half-written file
+                    last = e
+        finally:
+            fcntl.flock(rw, fcntl.LOCK_UN)
+            rw.close()
+        time.sleep(1 + attempt)
+    raise BuildFailed('fact directory kept changing while loading: %s' % last)
 
 
 # ------------------------------------------------------------------ outcomes
